@@ -1,5 +1,194 @@
-(* C13 -- property theorems (being filled in; see Proofs.v) *)
-From CppcmsV Require Import Base.Tac Base.Sweep C13.Defs.
+(* C13 -- the built-in file server never serves anything outside its document roots.
+   Only property theorems here, each closed by `exact <lemma>`; proofs are in ProofsNorm.v (normalize_path),
+   ProofsRoot.v (is_file_prefix, aliases, check_in_document_root, main) and ProofsMain.v (listing, pipeline).
+   Vocabulary (Defs.v): render cs = slash ++ c1 ++ slash ++ ... ++ cn ; good_comp c = c is non-empty, is not
+   dot, is not dot-dot and has no slash; resolve = textbook stack resolution (dot-dot pops, never above the root);
+   handle = http_api.cpp path pipeline (cut at the question mark, urldecode, C string) followed by
+   file_server::main, over abstract OS functions canonical (realpath), file_mode (stat), dir_entries, can_open. *)
+From CppcmsV Require Import Base.Tac Base.CSem Base.Sweep C15.Defs C13.Defs C13.ProofsNorm C13.ProofsRoot C13.ProofsMain C13.ProofsIp C13.Link gen.Gen_fileserver.
 Local Open Scope N_scope.
-Example normalize_example : normalize [47;97;47;98;47;46;46;47;99] = [47;97;47;99].
-Proof. vm_compute. reflexivity. Qed.
+
+(* 1. normalize_safe: for EVERY byte string the result of file_server::normalize_path is slash-rooted, consists of
+      good components only (no empty, dot, dot-dot component), and normalising again changes nothing *)
+Theorem normalize_safe : forall p, exists cs,
+  normalize p = render cs /\ Forall (fun c => good_comp c = true) cs /\ normalize (normalize p) = normalize p.
+Proof. exact normalize_safe_full. Qed.
+Print Assumptions normalize_safe.
+
+(* 2. normalize_resolves: the in-place algorithm computes the textbook resolution of the slash-separated pieces *)
+Theorem normalize_resolves : forall p, normalize p = render (resolve (split_slash (tl (ensure_slash p)))).
+Proof. exact normalize_resolves_gen. Qed.
+Print Assumptions normalize_resolves.
+
+(* 2b. normalize_refines_iterators: the statement-by-statement model over ONE string buffer with the indices
+       out / start / end (std::find, the overlapping std::copy towards the front, the stored slash, the backwards
+       scan reading the already written output, the final trailing-slash adjustment and resize; Defs.v 1b)
+       computes the same function as the functional model, for every input: nothing unread is ever overwritten *)
+Theorem normalize_refines_iterators : forall p, normalize_ip p = normalize p.
+Proof. exact normalize_ip_refines. Qed.
+Print Assumptions normalize_refines_iterators.
+
+Example normalize_nonvacuous :
+  normalize [47;97;47;98;47;46;46;47;99] = [47;97;47;99] /\            (* /a/b/../c -> /a/c *)
+  normalize [47;46;46;47;46;46;47;101;116;99;47] = [47;101;116;99] /\  (* /../../etc/ -> /etc *)
+  normalize [97;47;47;46;47;46;46] = [47].                              (* a//./..  -> /  *)
+Proof. repeat split; vm_compute; reflexivity. Qed.
+
+(* 3. alias_component: on canonical paths is_file_prefix is exactly the component-wise prefix relation, and with
+      alias URLs as the constructor leaves them an alias is selected only when its URL is a whole-component prefix
+      of the normalised path (the remainder is again a rendering of the remaining components); when none is
+      selected, no alias URL is a component prefix.  So /alias../x and /aliasx never select /alias. *)
+Theorem is_file_prefix_is_component_prefix : forall rcs cs, Forall good rcs -> Forall good cs ->
+  (is_file_prefix (render rcs) (render cs) = true <-> exists t, cs = rcs ++ t).
+Proof. exact is_file_prefix_iff. Qed.
+Print Assumptions is_file_prefix_is_component_prefix.
+Theorem alias_component : forall al cs target rest,
+  Forall (fun a => url_ok (fst a)) al -> Forall good cs ->
+  select_alias al (render cs) = Some (target, rest) ->
+  exists ucs t, In (render ucs, target) al /\ cs = ucs ++ t /\ rest = render t.
+Proof. exact alias_component_some. Qed.
+Print Assumptions alias_component.
+Theorem alias_component_complete : forall al cs,
+  Forall (fun a => url_ok (fst a)) al -> Forall good cs ->
+  select_alias al (render cs) = None ->
+  forall ucs tg t, In (render ucs, tg) al -> Forall good ucs -> cs <> ucs ++ t.
+Proof. exact alias_component_none. Qed.
+Print Assumptions alias_component_complete.
+Example alias_nonvacuous :
+  let al := [([47;97;108], [47;84])] in                                                      (* /al -> /T *)
+  select_alias al [47;97;108;47;120] = Some ([47;84], [47;120]) /\                          (* /al/x   *)
+  select_alias al [47;97;108] = Some ([47;84], [47]) /\                                     (* /al     *)
+  select_alias al [47;97;108;120] = None /\                                                 (* /alx    *)
+  select_alias al [47;97;108;46;46;47;120] = None.                                          (* /al../x *)
+Proof. repeat split; vm_compute; reflexivity. Qed.
+
+(* 4. contained_lexical (check_symlink off): whatever the request and whatever the alias URL strings, the path
+      that check_in_document_root hands to stat/open/opendir is  root ++ /c1/.../cn  where root is the document
+      root or an alias target and c1..cn are good components forming a tail of the resolved request: the path
+      only descends from the root (it names a node under root in any name space without symbolic links) *)
+Theorem contained_lexical : forall canonical cfg f path,
+  check_symlinks cfg = false ->
+  check_in_document_root canonical cfg f = Some path ->
+  exists root pre t, root_in_force cfg root /\ Forall good t /\
+    resolve (split_slash (tl (ensure_slash f))) = pre ++ t /\
+    path = root ++ flat_map (fun c => slash :: c) t.
+Proof. exact contained_lexical_gen. Qed.
+Print Assumptions contained_lexical.
+
+(* 5. contained_real (check_symlink on): if realpath returns canonical paths (contract) and the roots are
+      canonical (they are outputs of canonical() in the constructor), the path handed to stat/open/opendir is a
+      canonical path with the root in force as a COMPONENT-WISE prefix, and it is the canonicalisation of
+      root / lexically-safe-path *)
+Theorem contained_real : forall canonical cfg f real,
+  canonical_contract canonical -> roots_canonical cfg ->
+  check_symlinks cfg = true ->
+  check_in_document_root canonical cfg f = Some real ->
+  exists root rcs below lex, root_in_force cfg root /\ root = render rcs /\
+    real = render (rcs ++ below) /\ Forall good (rcs ++ below) /\
+    Forall good lex /\ canonical (cstr (root ++ slash :: render lex)) = Some real.
+Proof. exact contained_real_gen. Qed.
+Print Assumptions contained_real.
+(* the contract is satisfiable and meaningful: the executable POSIX name-space model used by the model driver
+   (symbolic links, dot-dot, absolute and relative targets) meets it for every name space *)
+Theorem realpath_model_meets_contract : forall fs, canonical_contract (fs_realpath fs).
+Proof. exact fs_realpath_canonical. Qed.
+Print Assumptions realpath_model_meets_contract.
+
+(* 6. main decision tree, end to end from the raw request target: a file is streamed only if it is S_IFREG and
+      its path came out of check_in_document_root (for the request path or for path/index), hence is contained
+      as in 4/5; a directory is opened for listing only if listing is enabled and likewise contained *)
+Theorem main_streams_only_checked_regular_files : forall canonical file_mode dir_entries can_open cfg f p e,
+  fs_main canonical file_mode dir_entries can_open cfg f = RFile p e ->
+  (check_in_document_root canonical cfg f = Some p \/
+   check_in_document_root canonical cfg (f ++ slash :: index_file cfg) = Some p) /\
+  has_bit (file_mode (cstr p)) S_IFREG = true /\ can_open (cstr p) = true.
+Proof. exact main_serves. Qed.
+Print Assumptions main_streams_only_checked_regular_files.
+Theorem served_file_contained_lexical : forall canonical file_mode dir_entries can_open cfg target p e,
+  check_symlinks cfg = false ->
+  handle canonical file_mode dir_entries can_open cfg target = RFile p e ->
+  exists root t, root_in_force cfg root /\ Forall good t /\ p = root ++ flat_map (fun c => slash :: c) t.
+Proof. exact served_lexical. Qed.
+Print Assumptions served_file_contained_lexical.
+Theorem served_file_contained_real : forall canonical file_mode dir_entries can_open cfg target p e,
+  canonical_contract canonical -> roots_canonical cfg -> check_symlinks cfg = true ->
+  handle canonical file_mode dir_entries can_open cfg target = RFile p e ->
+  exists root rcs below, root_in_force cfg root /\ root = render rcs /\
+    p = render (rcs ++ below) /\ Forall good (rcs ++ below).
+Proof. exact served_real. Qed.
+Print Assumptions served_file_contained_real.
+Theorem path_info_is_c_string : forall target, nonul (path_info target) = true.
+Proof. exact path_info_nonul. Qed.
+Print Assumptions path_info_is_c_string.
+(* the OS receives path.c_str(): for a request path without NUL (every front end hands over a C string, see
+   path_info_is_c_string) and roots without NUL the C string IS the contained path of theorem 4 *)
+Theorem lexical_opened_string_is_checked_path : forall canonical cfg f path,
+  check_symlinks cfg = false -> nonul f = true -> (forall root, root_in_force cfg root -> nonul root = true) ->
+  check_in_document_root canonical cfg f = Some path -> cstr path = path.
+Proof. exact lexical_path_is_c_string. Qed.
+Print Assumptions lexical_opened_string_is_checked_path.
+(* aside (why the premise is there): file_server::main called with an embedded NUL - not reachable through the
+   http/scgi/fastcgi front ends - would hand  root/..  to the OS although the checked std::string is lexically safe *)
+Example nul_premise_is_needed :
+  check_in_document_root (fun _ => None) (mkcfg [47;114] [] false false [105]) [47;46;46;0] = Some [47;114;47;46;46;0] /\
+  cstr [47;114;47;46;46;0] = [47;114;47;46;46].
+Proof. split; vm_compute; reflexivity. Qed.
+
+(* 7. listing_rules: a listing is produced only when enabled, for a directory that passed
+      check_in_document_root (contained as in 4/5); no row for a name starting with a dot; the text of every row
+      is util::escape(name) (+ slash) and so free of markup characters, the href is util::urlencode(name) (+ slash) *)
+Theorem listing_only_when_enabled : forall canonical file_mode dir_entries can_open cfg f title parent rows,
+  fs_main canonical file_mode dir_entries can_open cfg f = RListing title parent rows ->
+  listing cfg = true /\ title = escape f /\
+  exists path names, check_in_document_root canonical cfg f = Some path /\
+    has_bit (file_mode (cstr path)) S_IFDIR = true /\
+    dir_entries (cstr path) = Some names /\ rows = list_rows file_mode path names.
+Proof. exact main_lists. Qed.
+Print Assumptions listing_only_when_enabled.
+Theorem listed_directory_contained_lexical : forall canonical file_mode dir_entries can_open cfg target ti pa rows,
+  check_symlinks cfg = false ->
+  handle canonical file_mode dir_entries can_open cfg target = RListing ti pa rows ->
+  exists path names root t, dir_entries (cstr path) = Some names /\ rows = list_rows file_mode path names /\
+    root_in_force cfg root /\ Forall good t /\ path = root ++ flat_map (fun c => slash :: c) t.
+Proof. exact listed_lexical. Qed.
+Print Assumptions listed_directory_contained_lexical.
+Theorem listed_directory_contained_real : forall canonical file_mode dir_entries can_open cfg target ti pa rows,
+  canonical_contract canonical -> roots_canonical cfg -> check_symlinks cfg = true ->
+  handle canonical file_mode dir_entries can_open cfg target = RListing ti pa rows ->
+  exists path names root rcs below, dir_entries (cstr path) = Some names /\ rows = list_rows file_mode path names /\
+    root_in_force cfg root /\ root = render rcs /\ path = render (rcs ++ below) /\ Forall good (rcs ++ below).
+Proof. exact listed_real. Qed.
+Print Assumptions listed_directory_contained_real.
+Theorem listing_rows_rule : forall file_mode path names h tx, In (h, tx) (list_rows file_mode path names) ->
+  exists name add, In name names /\ starts_with_dot name = false /\
+    h = urlencode name ++ add /\ tx = escape name ++ add /\ (add = [] \/ add = [slash]).
+Proof. exact list_rows_spec. Qed.
+Print Assumptions listing_rows_rule.
+Theorem listing_rows_markup_free : forall file_mode path names h tx, In (h, tx) (list_rows file_mode path names) ->
+  forallb markup_free tx = true.
+Proof. exact list_rows_text_markup_free. Qed.
+Print Assumptions listing_rows_markup_free.
+
+(* non-vacuity of 4-7 on a concrete name space:  /r (docroot) with f, d/.h, d/x<y, link -> /o ; /o/s outside *)
+Definition ex_fs : fsdesc :=
+  [ (rev [47;114], NDir); (rev [47;114;47;102], NReg 1); (rev [47;114;47;100], NDir);
+    (rev [47;114;47;100;47;46;104], NReg 2); (rev [47;114;47;100;47;120;60;121], NReg 3);
+    (rev [47;114;47;108], NLink [47;111]); (rev [47;111], NDir); (rev [47;111;47;115], NReg 9) ].
+Definition ex_cfg (chk : bool) : config := mkcfg [47;114] [] true chk [105].
+Example contained_nonvacuous :
+  fs_handle ex_fs (ex_cfg true) [47;100;47;46;46;47;102] = RFile [47;114;47;102] [] /\          (* /d/../f  -> /r/f *)
+  fs_handle ex_fs (ex_cfg true) [47;108;47;115] = R404 /\                                        (* /l/s escapes: 404 *)
+  fs_handle ex_fs (ex_cfg false) [47;108;47;115] = RFile [47;114;47;108;47;115] [] /\            (* lexical only *)
+  fs_handle ex_fs (ex_cfg true) [47;37;50;101;37;50;101;47;111;47;115] = R404 /\                 (* /%2e%2e/o/s *)
+  fs_handle ex_fs (ex_cfg true) [47;100;47] =
+    RListing [47;100;47] true [([120;37;51;99;121], [120;38;108;116;59;121])] /\                 (* x<y escaped, .h hidden *)
+  roots_canonical (ex_cfg true).
+Proof.
+  repeat split; try (vm_compute; reflexivity).
+  intros root [H|[]]. exists [[114]]. split. exact H. repeat constructor.
+Qed.
+
+(* 8. tie: the separator test regenerated from the current source is the model's (c =? slash) *)
+Theorem tie_is_directory_separator : forall b, b < 256 -> g_is_directory_separator (wraps 8 (Z.of_N b)) = (b =? slash).
+Proof. exact link_is_directory_separator. Qed.
+Print Assumptions tie_is_directory_separator.
